@@ -234,6 +234,7 @@ type fn struct {
 	recvPtrI bool   // receiver is *T with T an integer type: `*b` is the value
 	named    []Var  // named results
 	seen     map[string]bool
+	clash    string // first pair of distinct Go entities that map to one Lean name
 }
 
 type unsupported struct{ msg string }
@@ -247,6 +248,9 @@ func (f *fn) fail(n ast.Node, what string) error {
 func (f *fn) noteVar(list *[]Var, v Var) {
 	for _, x := range *list {
 		if x.Name == v.Name {
+			if x.Go != v.Go && f.clash == "" {
+				f.clash = fmt.Sprintf("`%s` and `%s` would share the Lean name %s", x.Go, v.Go, v.Name)
+			}
 			return
 		}
 	}
@@ -309,8 +313,14 @@ func (p *Pkg) Translate(key string) (*Kernel, error) {
 	}
 	// first pass to learn written fields/globals (needed to build return tuples)
 	f.scanWrites(fd.Body)
+	if err := f.deadCode(fd.Body); err != nil {
+		return nil, err
+	}
 	body, err := f.stmts(fd.Body.List, 1)
 	if err != nil {
+		return nil, err
+	}
+	if err := f.nameCheck(); err != nil {
 		return nil, err
 	}
 	ind := "  "
@@ -321,6 +331,99 @@ func (p *Pkg) Translate(key string) (*Kernel, error) {
 	p.done[key] = k
 	p.order = append(p.order, key)
 	return k, nil
+}
+
+// deadCode rejects a statement list that continues after a `return`: the translation stops at the return, so whatever
+// follows would be silently ignored (in real source it is dead; in a synthetic kernel made by textual replacement it is
+// code the model would not see).
+func (f *fn) deadCode(body *ast.BlockStmt) error {
+	var err error
+	check := func(list []ast.Stmt) {
+		for i, s := range list {
+			if _, ok := s.(*ast.ReturnStmt); ok && i < len(list)-1 && err == nil {
+				err = f.fail(list[i+1], "statement after return")
+			}
+		}
+	}
+	ast.Inspect(body, func(n ast.Node) bool {
+		switch x := n.(type) {
+		case *ast.BlockStmt:
+			check(x.List)
+		case *ast.CaseClause:
+			check(x.Body)
+		case *ast.CommClause:
+			check(x.Body)
+		}
+		return true
+	})
+	return err
+}
+
+// nameCheck makes the Go-name → Lean-name mapping injective for this kernel: two different variables (a local and the
+// named result it shadows in a nested block, `max` and `max_`, the field n.time and a local n_time, …) must never
+// become one Lean variable, because blocks are flattened into one chain of `let`s.
+func (f *fn) nameCheck() error {
+	if f.clash != "" {
+		return unsupported{f.k.Key + ": " + f.clash}
+	}
+	owner := map[string][]types.Object{}
+	nested := func(a, b *types.Scope) bool { // a is b or an ancestor of b
+		for s := b; s != nil; s = s.Parent() {
+			if s == a {
+				return true
+			}
+		}
+		return false
+	}
+	var err error
+	def := func(id *ast.Ident) {
+		if id == nil || id.Name == "_" || err != nil {
+			return
+		}
+		obj := f.p.Info.Defs[id]
+		v, ok := obj.(*types.Var)
+		if !ok || v.IsField() {
+			return
+		}
+		name := ident(id.Name)
+		for _, prev := range owner[name] {
+			if prev == obj {
+				return
+			}
+			// the same name declared in two disjoint scopes (the two arms of an if) is harmless; anything else is not
+			if prev.Name() != id.Name || nested(prev.Parent(), obj.Parent()) || nested(obj.Parent(), prev.Parent()) {
+				err = unsupported{fmt.Sprintf("%s: two different variables (`%s` and `%s`) would share the Lean name %s — shadowing or a name clash", f.k.Key, prev.Name(), id.Name, name)}
+				return
+			}
+		}
+		owner[name] = append(owner[name], obj)
+	}
+	ast.Inspect(f.fd, func(n ast.Node) bool {
+		if id, ok := n.(*ast.Ident); ok {
+			def(id)
+		}
+		return true
+	})
+	if err != nil {
+		return err
+	}
+	for _, list := range [][]Var{f.k.Fields, f.k.Globals, f.k.Exts} {
+		for _, v := range list {
+			if o := owner[v.Name]; len(o) > 0 {
+				return unsupported{fmt.Sprintf("%s: local `%s` and `%s` would share the Lean name %s", f.k.Key, o[0].Name(), v.Go, v.Name)}
+			}
+		}
+	}
+	all := map[string]string{}
+	for _, list := range [][]Var{f.k.Fields, f.k.Globals, f.k.Exts} {
+		for _, v := range list {
+			if g, ok := all[v.Name]; ok && g != v.Go {
+				return unsupported{fmt.Sprintf("%s: `%s` and `%s` would share the Lean name %s", f.k.Key, g, v.Go, v.Name)}
+			}
+			all[v.Name] = v.Go
+		}
+	}
+	return nil
 }
 
 func leanName(key string) string {
@@ -392,7 +495,9 @@ func (f *fn) lvalue(e ast.Expr) (Var, string, bool) {
 	return Var{}, "", false
 }
 
-func isLockCall(e ast.Expr) (string, bool) {
+// isLockCall recognises x.Lock() / Unlock / RLock / RUnlock — only when the method is the one of sync.Mutex /
+// sync.RWMutex (also promoted through embedding). A user-defined method of that name is code, not a lock.
+func (f *fn) isLockCall(e ast.Expr) (string, bool) {
 	c, ok := e.(*ast.CallExpr)
 	if !ok || len(c.Args) != 0 {
 		return "", false
@@ -403,6 +508,14 @@ func isLockCall(e ast.Expr) (string, bool) {
 	}
 	switch s.Sel.Name {
 	case "Lock", "Unlock", "RLock", "RUnlock":
+		sel := f.p.Info.Selections[s]
+		if sel == nil {
+			return "", false
+		}
+		m, ok := sel.Obj().(*types.Func)
+		if !ok || m.Pkg() == nil || m.Pkg().Path() != "sync" {
+			return "", false
+		}
 		return s.Sel.Name, true
 	}
 	return "", false
@@ -447,13 +560,13 @@ func (f *fn) stmts(list []ast.Stmt, d int) (string, error) {
 	case *ast.BlockStmt:
 		return f.stmts(append(append([]ast.Stmt{}, x.List...), rest...), d)
 	case *ast.DeferStmt:
-		if name, ok := isLockCall(x.Call); ok {
+		if name, ok := f.isLockCall(x.Call); ok {
 			f.k.Locks = append(f.k.Locks, "defer "+f.p.src(x.Call.Fun)[:len(f.p.src(x.Call.Fun))-len(name)]+name)
 			return f.stmts(rest, d)
 		}
 		return "", f.fail(x, "defer")
 	case *ast.ExprStmt:
-		if name, ok := isLockCall(x.X); ok {
+		if name, ok := f.isLockCall(x.X); ok {
 			_ = name
 			f.k.Locks = append(f.k.Locks, f.p.src(x.X.(*ast.CallExpr).Fun))
 			return f.stmts(rest, d)
